@@ -155,3 +155,68 @@ func vpH_c10_envblock() {
 	}
 	vpAssert(step.Command == wantCmd, "later strings are expanded under the final environment")
 }
+
+func init() { vpRegister("c10_collisions", vpH_c10_collisions) }
+
+// Names that collide after expansion: the property does not define which
+// entry should survive, but the block must behave like the ordered-map model
+// of the same in-place renames (a colliding entry is dropped, the renamed one
+// keeps its position, dropped entries are not visited), without panicking.
+func vpH_c10_collisions() {
+	n := vpParam("entries")
+	caller := env.New(env.CaseSensitive(true))
+	model := &vpEnvModel{}
+	if vpBool() {
+		name, val := vpStr(1, "A-B"), vpStr(1, "A-B")
+		caller.Set(name, val)
+		model.Set(name, val)
+	}
+	p := &Pipeline{Env: ordered.NewMap[string, string](n)}
+	var curK, curV []string
+	for i := 0; i < n; i++ {
+		k := vpStr(1, "A-B")
+		if vpBool() {
+			k = "$" + k
+		}
+		for _, o := range curK {
+			vpAssume(o != k)
+		}
+		v := vpStr(1, "A-Bx")
+		curK, curV = append(curK, k), append(curV, v)
+		p.Env.Set(k, v)
+	}
+	alive := make([]bool, n)
+	for i := range alive {
+		alive[i] = true
+	}
+	for i := 0; i < n; i++ {
+		if !alive[i] {
+			continue
+		}
+		k2, err1 := interpolate.Interpolate(model, curK[i])
+		v2, err2 := interpolate.Interpolate(model, curV[i])
+		vpAssume(err1 == nil && err2 == nil)
+		for j := 0; j < n; j++ {
+			if j != i && alive[j] && curK[j] == k2 {
+				alive[j] = false
+			}
+		}
+		curK[i], curV[i] = k2, v2
+		model.Set(k2, v2)
+	}
+	err := p.Interpolate(caller, false)
+	vpAssert(err == nil, "colliding names: interpolation succeeds")
+	var wantK, wantV []string
+	for i := 0; i < n; i++ {
+		if alive[i] {
+			wantK, wantV = append(wantK, curK[i]), append(wantV, curV[i])
+		}
+	}
+	i := 0
+	p.Env.Range(func(k, v string) error {
+		vpAssert(i < len(wantK) && k == wantK[i] && v == wantV[i], "colliding names: the block equals the ordered-map model of the same renames")
+		i++
+		return nil
+	})
+	vpAssert(i == len(wantK) && p.Env.Len() == len(wantK), "colliding names: no entry is duplicated or lost beyond the dropped collisions")
+}
